@@ -40,8 +40,40 @@ ASSUMPTIONS = [
 
 
 @st.composite
+def bulk_documents(draw, d):
+    """A long label: 1-3 generated statements plus a few tiny ones (empty sequence and
+    set, a one-element sequence, a keyword) repeated 40-250 times, names repeating too
+    (duplicates are kept).  Whatever a parser counts per statement, per bracket or per
+    value has to come out right after hundreds of them."""
+    T = gt.T
+    small = draw(st.lists(gt.statements(d), min_size=1, max_size=3))
+    tiny = [([T("E"), T("=", "eq"), T("(", "open"), T(")", "close")], ("E", ("seq", ()))),
+            ([T("S"), T("=", "eq"), T("{", "open"), T("}", "close")],
+             ("S", ("set", frozenset()))),
+            ([T("O"), T("=", "eq"), T("(", "open"), T("1", "word", ("int", 1)),
+              T(")", "close")], ("O", ("seq", (("int", 1),)))),
+            ([T("N"), T("=", "eq"), T("NULL", "word", ("none",))], ("N", ("none",)))]
+    if d in ("ODL", "PDS3"):
+        tiny = tiny[2:]          # ODL has no empty sequences
+    unit = small + draw(st.lists(st.sampled_from(tiny), min_size=1, max_size=4))
+    k = draw(st.integers(40, 250))
+    toks, items = [], []
+    for _ in range(k):
+        for t, item in unit:
+            toks += t
+            items.append(item)
+            if len(toks) > 4000:
+                break
+        if len(toks) > 4000:
+            break
+    toks.append(T("END", "end"))
+    return dict(tokens=toks, expected=("mod", tuple(items)), tail="")
+
+
+@st.composite
 def cases(draw, d):
-    doc = draw(gt.documents(d))
+    doc = draw(bulk_documents(d)) if draw(st.integers(0, 24)) == 0 else \
+        draw(gt.documents(d))
     how = draw(st.integers(0, 5))
     if how < 3:
         text = gt.canonical_text(doc)
